@@ -420,6 +420,17 @@ def fam_eq(tier, seed, extra=()):
         ("c := mut 1; id := (x: any) -> any { return x }; (id(c) == c, [c][0] == c, struct{a := c}.a == c)", (True, True, True)),
         ("c := mut 1; h := () -> mut int { return c }; (h() == c, h() == mut 1)", (True, False)),
         ("x := 0.0 / 0.0; x == x", False), ("x := [0.0 / 0.0]; x == x", False),
+        # static types of the operands differ, contents are equal
+        ("f := (s: struct{a: int | float}, t: struct{a: int}) -> (bool, bool) { return (s == t, s != t) }; v := struct{a := 1}; f(v, v)", (True, False)),
+        ("f := (a: struct{x: int}, b: struct{x: int, y: int}) -> (bool, bool) { return (a == b, a != b) }; s := struct{x := 1, y := 2}; f(s, s)", (True, False)),
+        ("f := (a: struct{x: any}, b: struct{x: int}) -> bool { return a == b }; f(struct{x := 3}, struct{x := 3})", True),
+        ("f := (a: int | float, b: int) -> (bool, bool) { return (a == b, a != b) }; (f(1, 1), f(1.0, 1))", ((True, False), (False, True))),
+        ("f := (a: any, b: int) -> bool { return a == b }; (f(2, 2), f(\"2\", 2))", (True, False)),
+        ("f := (a: [int | float], b: [int]) -> (bool, bool) { return (a == b, a != b) }; f([1, 2], [1, 2])", (True, False)),
+        ("f := (a: [any], b: [int]) -> bool { return a == b }; (f([1], [1]), f([], []))", (True, True)),
+        ("f := (a: (int | float, any), b: (int, int)) -> bool { return a == b }; f((1, 2), (1, 2))", True),
+        ("f := (a: int | string, b: float | string) -> bool { return a == b }; (f(\"s\", \"s\"), f(1, 1.0))", (True, False)),
+        ("f := (a: () | int, b: ()) -> bool { return a == b }; (f((), ()), f(0, ()))", (True, False)),
         # by content, also when both operands are the very same object
         ("n := 0.0 / 0.0; s := struct{a := n}; s == s", False), ("n := 0.0 / 0.0; s := (n, 1); s == s", False),
         ("n := 0.0 / 0.0; s := struct{a := n}; t := s; (s == t, s != t)", (False, True)),
@@ -537,7 +548,10 @@ def fam_slice(tier, seed, extra=()):
             for se in steps:
                 combos.append((st, sp, se))
     if tier == "quick":
-        combos = rnd.sample(combos, 500) + [(None, None, None), (None, None, -1), (1, -1, None), (None, None, 0)]
+        core_v = [None, 0, 1, -1, 2, -2, 3, -3, 7, -7, MIN, MAX]
+        core_s = [None, 1, -1, 2, -2, 0]
+        core = [(a, b, c) for a in core_v for b in core_v for c in core_s]
+        combos = core + rnd.sample(combos, 300)
     k = 0
 
     def txt(st, sp, se, dyn):
@@ -653,6 +667,14 @@ def fam_order(tier, seed, extra=()):
     out.append(Case("order/call_nested", PRE + "g := (a: int, b: int) -> int { return a - b }; r := g(g(t(1), t(2)), g(t(3), t(4))); (r, *log)", (0, 1234)))
     out.append(Case("order/map_filter_fn", PRE + "arr := [1, 2, 3]~ @ (x: int) -> int { return t(x) } $]; (arr, *log)", ([1, 2, 3], 123)))
     out.append(Case("order/compound_rhs_then_read", PRE + "c := mut 1; setc := (k: int) -> int { c = 10; return t(k) }; r := (c += setc(5)); (r, *c, *log)", (15, 15, 5)))
+    out.append(Case("order/index_literal", PRE + "r := [t(1), t(2), t(3)][1]; (r, *log)", (2, 123)))
+    out.append(Case("order/index_literal_neg", PRE + "r := [t(1), t(2), t(3)][0 - 1]; (r, *log)", (3, 123)))
+    out.append(Case("order/index_literal/fn", PRE + "f := () -> int { r := [t(1), t(2), t(3)][0]; return *log }; f()", 123))
+    out.append(Case("order/tuple_access_literal", PRE + "r := (t(1), t(2), t(3)).1; (r, *log)", (2, 123)))
+    out.append(Case("order/field_access_literal", PRE + "r := struct{a := t(1), b := t(2)}.a; (r, *log)", (1, 12)))
+    out.append(Case("order/slice_literal", PRE + "r := [t(1), t(2), t(3)][1:]; (r, *log)", ([2, 3], 123)))
+    out.append(Case("order/compound_target_once", PRE + "cells := [mut 10, mut 20]; nxt := (k: int) -> int { log = *log * 10 + k; return k - 1 }; "
+                    "r := (cells[nxt(1)] -= t(2)); (r, *cells[0], *cells[1], *log)", (8, 8, 20, 12)))
     # only the chosen branch
     out.append(Case("order/if/true", PRE + "r := if tb(1, true) t(2) else t(3); (r, *log)", (2, 12)))
     out.append(Case("order/if/false", PRE + "r := if tb(1, false) t(2) else t(3); (r, *log)", (3, 13)))
@@ -720,6 +742,17 @@ def fam_control(tier, seed, extra=()):
     c("ifset/any_array", "f := (v: [int] | int) -> int { return if x: [any] = v 1 else 2 }; (f([1]), f([]), f(3))", (1, 1, 2), mode="std")
     c("ifset/empty_array", "f := (v: [int] | [float]) -> int { return if x: [int] = v 1 else 2 }; (f([]), f([1]), f([1.5]))", (1, 1, 2))
     c("whileset/union", "vals := [1, 2.5, \"s\", 4]; i := mut 0; while x: int | float = vals[*i] { i += 1 }; *i", 2)
+    c("match/tuple_lengths", "f := (t: (int, int) | (int, int, int)) -> int { return match t { p: (int, int) => 2, q: (int, int, int) => 3, } }; (f((1, 2)), f((1, 2, 3)))", (2, 3))
+    c("ifset/tuple_lengths", "f := (t: (int, int) | (int, int, int)) -> int { return if p: (int, int) = t 2 else 3 }; (f((1, 2)), f((1, 2, 3)))", (2, 3))
+    c("match/array_of_union", "f := (v: [int | string]) -> int { return match v { a: [int] => 1, b: [string] => 2, c: [int | string] => 3, } }; (f([1]), f([\"a\"]), f([1, \"a\"]))", (1, 2, 3))
+    c("place/match_array_union_not_covered", "f := (v: [int | string]) -> int { return match v { a: [int] => 1, b: [string] => 2, } }; f([1, \"a\"])",
+      Err("All posible values must be covered in match"))
+    c("loop/unconditional_break_nested", "n := mut 0; for x in [1, 2, 3]~ { loop { n += x; break } }; *n", 6)
+    c("loop/unconditional_break_in_while", "i := mut 0; while *i < 3 { i += 1; loop { break } }; *i", 3)
+    c("loop/unconditional_break_in_fn", "f := () -> int { loop { break }; return 5 }; f()", 5)
+    c("loop/unconditional_continue_then_break", "i := mut 0; n := mut 0; loop { i += 1; if *i > 3 { break } loop { n += 1; if true { break } else { continue } } }; (*i, *n)", (4, 3))
+    c("loop/take_first", "first := mut 0; n := mut 0; for a in [10, 20]~ { for x in [1, 2, 3]~ { first += x; break }; n += a }; (*first, *n)", (2, 30))
+    c("loop/all_paths_diverge", "i := mut 0; r := mut 0; while *i < 3 { i += 1; loop { if *i == 2 { break } else { break } }; r += 1 }; *r", 3)
     c("block/value", "x := { 1; 2; 3 }; y := { }; (x, y)", (3, None))
     c("block/last_is_set", "x := { a := 5 }; x", 5)
     return out
@@ -781,6 +814,9 @@ TWIN_TEMPLATES = [
     ("short_circuit_effect", "c := mut 0; bump := () -> bool { c += 1; return true }; r := (A > B && bump()) || (A < B && bump()); (r, *c)"),
     ("and_absorbing_rhs_keeps_lhs_effect", "c := mut 0; r := ((c += 1) > 0 - 1000) && (A > A); q := ((c += 10) > 0 - 1000) || (A == A); (r, q, *c)"),
     ("and_or_rhs_constant_neutral", "c := mut 0; r := ((c += 1) > 1000) || (A > A); q := ((c += 10) > 1000) && (A == A); (r, q, *c)"),
+    ("folded_array_runtime_type", "a := [A, 2.5]; b := [a[0], a[0]]; match b { v: [int] => 1, v: [any] => 2, }"),
+    ("folded_array_ifset", "a := [A, 2.5]; c := mut 0; if ints: [int] = [a[0]] { c += 1 } else { c += 100 }; *c"),
+    ("folded_tuple_runtime_type", "a := [A, 2.5]; t := (a[0], a[1]); match t { v: (int, float) => 1, => 2, }"),
     ("index", "arr := [A, B, C]; (arr[0], arr[2 - 3], arr[1] + arr[0])"),
     ("index_expr", "[A, B, C][(A - A) + 1]"),
     ("tuple", "t := (A, B, C); (t.0 + t.2, t.1)"),
